@@ -190,6 +190,33 @@ class Interpreter:
         self.shared[op["id"]] = K.build(op["spec"])
         self.shared_spec[op["id"]] = copy.deepcopy(op["spec"])
 
+    def op_shared_set_params(self, op):
+        """The caller re-configures a shared object (a cost, or the change detector wrapped by an anomaliser) through their OWN
+        handle. Objects built around it are not reset by that; what they return before being fitted or updated again is not
+        defined by the property (they are marked stale and only fit / update are applied to them), but the next fit / update
+        must behave like a freshly built object with the current hyper-parameters."""
+        sid = op["id"]
+        if sid not in self.shared:
+            return
+        new_shared = copy.deepcopy(self.shared_spec[sid])
+        new_shared.update(copy.deepcopy(op["params"]))
+        saved = self.shared_spec[sid]
+        self.shared_spec[sid] = new_shared
+        try:
+            K.build(new_shared)
+            for other in self.det_model.values():
+                if other["share"] and other["share"][1] == sid:
+                    self.fresh_detector(other)
+        except Exception:  # noqa: BLE001 - only configurations that are valid for every holder
+            self.shared_spec[sid] = saved
+            return
+        with sut("set_params on a shared object through the caller's own handle"):
+            self.shared[sid].set_params(**{k: K.build(v) for k, v in op["params"].items()})
+        for mm in self.det_model.values():
+            if mm["share"] and mm["share"][1] == sid and mm["fitted"]:
+                mm["stale"] = True
+        self.stats["handle_reconfigured"] = self.stats.get("handle_reconfigured", 0) + 1
+
     def op_new_detector(self, op):
         spec = copy.deepcopy(op["spec"])
         share = None
@@ -292,6 +319,7 @@ class Interpreter:
             self.stats["refits"] += 1
         if real[0] == "ok":
             m["fitted"] = True
+            m["stale"] = False
             m["train"] = [op["data"]]
         elif m["fitted"]:
             # a failed re-fit leaves an object whose state the documentation does not define: retire it
@@ -320,6 +348,9 @@ class Interpreter:
             self.stats["late_updates"] = self.stats.get("late_updates", 0) + (d < max(m["train"]))
             m["train"] = m["train"] + [d]
             self.stats["updates"] += 1
+            if m.get("stale"):
+                self.stats["updated_after_handle_reconfiguration"] = self.stats.get("updated_after_handle_reconfiguration", 0) + 1
+            m["stale"] = False
         elif real[0] != "ok" and m["fitted"]:
             self._retire(op["slot"])
             return
@@ -354,11 +385,16 @@ class Interpreter:
         if op["slot"] not in self.det:
             return
         m = self.det_model[op["slot"]]
+        if m.get("stale"):
+            return
         X = self.data[op["data"]]
         degenerate = self._is_degenerate(m)
 
+        raw = {}
+
         def run(det, data):
             y = getattr(det, method)(data)
+            raw[id(det)] = y
             if not degenerate:
                 return sparse_signature(y) if method == "predict" else y
             # transform_scores returns the scores; predict / transform store them in `scores` during this call
@@ -381,6 +417,10 @@ class Interpreter:
         self._same_outcome(method, op, real, fresh, compare_value=True)
         self._touch(op["slot"], op["data"])
         self.stats["outputs"] += 1
+        y_real = raw.get(id(self.det[op["slot"]]))
+        if real[0] == "ok" and hasattr(y_real, "equals"):
+            # the caller keeps the frame / series it got from predict, transform or transform_scores: later calls must not change it
+            self.held_frames = (getattr(self, "held_frames", []) + [(y_real, y_real.copy(deep=True), method)])[-6:]
 
     def op_predict(self, op):
         self._output_op("predict", op)
@@ -413,6 +453,7 @@ class Interpreter:
         self._same_outcome(method, op, real, fresh, compare_value=not self._is_degenerate(m))
         if real[0] == "ok":
             m["fitted"] = True
+            m["stale"] = False
             m["train"] = [op["data"]]
             self.stats["outputs"] += 1
             if was_fitted:
@@ -541,6 +582,10 @@ class Interpreter:
         return getattr(self, "_held_counter", [])
 
     def check_held_outputs(self, where):
+        for obj, snapshot, method in getattr(self, "held_frames", []):
+            if obj.shape != snapshot.shape or not obj.equals(snapshot):
+                raise Violation(f"the output returned by an earlier {method} call changed afterwards (the detector handed out a view of its own work array)",
+                                after=where, returned=np.asarray(snapshot).reshape(-1).tolist()[:6], now=np.asarray(obj).reshape(-1).tolist()[:6])
         for arr, snapshot, _ in getattr(self, "held", []):
             if arr.shape != snapshot.shape or not np.array_equal(arr, snapshot, equal_nan=True):
                 raise Violation("an array returned by an earlier evaluate call changed afterwards (the scorer handed out its own buffer)",
@@ -976,6 +1021,22 @@ def shared_wrapped_histories(draw, tier):
             ops.append({"op": "fit", "slot": slot, "data": draw(st.integers(0, 2))})
         else:
             ops.append({"op": ("predict", "transform", "predict")[what % 3], "slot": slot, "data": draw(st.integers(0, 2))})
+    if draw(st.integers(0, 2)) == 0:
+        # the caller re-configures the wrapped detector through their own handle, then delivers new rows with update: the
+        # anomaliser must then answer like a freshly built one, with the current hyper-parameters, fitted on all rows
+        # (only the slot fitted on dataset 0 alone is updated, with the next block of rows, dataset 1)
+        key = "bandwidth" if inner == "MovingWindow" else "min_segment_length"
+        val = ip[key] + draw(st.integers(1, 3))
+        extra = {key: val}
+        if inner == "SeededBinarySegmentation":
+            extra["max_interval_length"] = max(ip["max_interval_length"], 2 * val)
+        if inner == "MovingWindow":
+            extra["min_detection_interval"] = 1
+        ops = [op for op in ops[:4] if not (op["op"] == "fit" and op["slot"] == 1)]
+        ops += [{"op": "fit", "slot": 1, "data": 2}, {"op": "predict", "slot": 0, "data": 0},
+                {"op": "shared_set_params", "id": 0, "params": extra},
+                {"op": "update", "slot": 0, "data": 1}, {"op": "predict", "slot": 0, "data": draw(st.integers(0, 2))},
+                {"op": "transform", "slot": 0, "data": 1}]
     n = draw(st.integers(max(n_min, 16), max(n_min, 16) + 30))
     datasets = []
     for k in range(3):  # bulk data last (see strategies/data.py); different lengths: tuned thresholds and penalties differ
